@@ -20,6 +20,9 @@ def evaluate(e, env):
         try: base = evaluate(e.value, env)
         except Unsupported: raise Unsupported("attribute %s" % key)
         if isinstance(base, dict) and ("." + e.attr) in base: return base["." + e.attr]      # sample object: {'.attr': value}
+        if isinstance(base, SList) and e.attr in base.sample_attrs: return base.sample_attrs[e.attr]
+        if isinstance(base, Inst) and e.attr == "__dict__": return {k_[1:]: v_ for k_, v_ in base.items() if k_.startswith(".") and not k_.startswith(".__")}
+        if isinstance(base, Inst) and e.attr == "__class__": return {".__name__": base[".__cls__"], ".kind": "cls"}
         h_ = (env.get("__functions__") or {}).get(e.attr)
         if isinstance(base, dict) and h_ is not None and any(isinstance(d_, ast.Name) and d_.id == "property" for d_ in h_.decorator_list) and h_.args.args and env.get("__depth__", 0) < 6:
             env2 = dict(env); env2["__depth__"] = env.get("__depth__", 0) + 1; env2[h_.args.args[0].arg] = base       # a property of the sample's class: its getter is interpreted
@@ -65,6 +68,7 @@ def evaluate(e, env):
         if e.id in env and e.id not in env.get("__global_names__", ()): return env[e.id]
         if e.id in (env.get("__globals__") or {}): return env["__globals__"][e.id]      # module-level state shared by all interpreted functions
         if e.id in env: return env[e.id]
+        if e.id in (env.get("__functions__") or {}): return DefClosure(env["__functions__"][e.id], env)      # a function of the analysed module used as a value
         # a module-level constant of the analysed file (env["__module__"]: its ast.Module): literal tables and strings
         mod = env.get("__module__")
         if mod is not None:
@@ -128,7 +132,7 @@ def evaluate(e, env):
         except IndexError: raise Raised("IndexError")
         except TypeError as te: raise Unsupported("subscript: %s" % te)
     if isinstance(e, ast.JoinedStr):
-        return "".join(str(evaluate(v.value, env)) if isinstance(v, ast.FormattedValue) else v.value for v in e.values)
+        return "".join(text_of(evaluate(v.value, env), env) if isinstance(v, ast.FormattedValue) else v.value for v in e.values)
     if isinstance(e, ast.Call):
         if isinstance(e.func, ast.Attribute) and e.func.attr in ("replace", "strip", "lstrip", "rstrip", "removeprefix", "removesuffix", "startswith", "endswith", "lower", "upper", "casefold", "join", "split", "rsplit", "partition", "rpartition", "format"):
             recv = evaluate(e.func.value, env)
@@ -139,6 +143,9 @@ def evaluate(e, env):
             if (isinstance(recv_, _re.Pattern) and e.func.attr in _PATTERN_METHODS) or (isinstance(recv_, _re.Match) and e.func.attr in _MATCH_METHODS):
                 r_ = _trusted_call(getattr(recv_, e.func.attr), _args(e.args, env), {k.arg: evaluate(k.value, env) for k in e.keywords if k.arg})
                 return list(r_) if e.func.attr == "finditer" else r_
+        if isinstance(e.func, ast.Name) and e.func.id in ("str", "repr") and len(e.args) == 1 and not e.keywords and e.func.id not in env and env.get("__classdefs__"):
+            v_ = evaluate(e.args[0], env)
+            return text_of(v_, env) if isinstance(v_, (Inst, list)) else (str(v_) if e.func.id == "str" else repr(v_))
         if isinstance(e.func, ast.Name) and e.func.id in ("len", "str", "bool", "list", "tuple", "sorted", "set", "dict", "id", "type", "any", "all", "sum", "min", "max") and not e.keywords: return {"any": any, "all": all, "sum": sum, "min": min, "max": max, "len": len, "str": str, "bool": bool, "list": list, "tuple": tuple, "sorted": sorted, "set": set, "dict": dict, "id": id, "type": lambda o: o.cls if isinstance(o, InstObj) else (o.get(".__class__") if isinstance(o, dict) and ".__class__" in o else type(o))}[e.func.id](*_args(e.args, env))
         if isinstance(e.func, ast.Name) and e.func.id == "callable" and len(e.args) == 1 and "callable" not in env:
             v_ = evaluate(e.args[0], env); return isinstance(v_, (PyFn, Closure, DefClosure, ClassObj, Callee)) or (isinstance(v_, dict) and v_.get(".kind") == "callable")
@@ -189,6 +196,11 @@ def evaluate(e, env):
             if has: return base[key]
             if len(e.args) == 3: return evaluate(e.args[2], env)
             raise Raised("AttributeError")
+        if isinstance(e.func, ast.Name) and e.func.id in ("map", "filter") and len(e.args) == 2 and e.func.id not in env:
+            f_ = evaluate(e.args[0], env); it_ = list(evaluate(e.args[1], env))
+            if f_ is None and e.func.id == "filter": return [x_ for x_ in it_ if x_]
+            if not callable(f_): raise Unsupported("%s with a non-callable" % e.func.id)
+            return [f_(x_) for x_ in it_] if e.func.id == "map" else [x_ for x_ in it_ if f_(x_)]
         if isinstance(e.func, ast.Name) and e.func.id == "next" and 1 <= len(e.args) <= 2 and not e.keywords:
             it_ = evaluate(e.args[0], env)
             if not isinstance(it_, list): raise Unsupported("next() on " + type(it_).__name__)
@@ -203,7 +215,9 @@ def evaluate(e, env):
         if isinstance(e.func, ast.Name) and e.func.id == "range" and 1 <= len(e.args) <= 3 and not e.keywords: return list(range(*_args(e.args, env)))
         if isinstance(e.func, ast.Name) and e.func.id == "isinstance" and len(e.args) == 2:
             T = {"str": str, "bool": bool, "int": int, "float": float, "list": list, "tuple": tuple, "dict": dict, "set": set}
-            sample_classes = env.get("__classes__") or {}
+            sample_classes = dict(env.get("__classes__") or {})
+            for cn_ in (env.get("__classdefs__") or {}):
+                sample_classes.setdefault(cn_, (lambda v_, cn_=cn_: isinstance(v_, Inst) and cn_ in _mro(env["__classdefs__"], v_[".__cls__"])))
             if isinstance(e.args[1], ast.Name) and e.args[1].id in sample_classes: return bool(sample_classes[e.args[1].id](evaluate(e.args[0], env)))
             if isinstance(e.args[1], ast.Tuple) and e.args[1].elts and all(isinstance(x_, ast.Name) and x_.id in sample_classes for x_ in e.args[1].elts):
                 v_ = evaluate(e.args[0], env); return any(bool(sample_classes[x_.id](v_)) for x_ in e.args[1].elts)
@@ -219,6 +233,27 @@ def evaluate(e, env):
                 if isinstance(x, ast.Tuple): return tuple(ty(y) for y in x.elts)
                 raise Unsupported("isinstance against " + ast.unparse(x))
             return isinstance(evaluate(e.args[0], env), ty(e.args[1]))
+        cds = env.get("__classdefs__") or {}
+        if cds:
+            if isinstance(e.func, ast.Name) and e.func.id in cds and e.func.id not in env:
+                return instantiate(e.func.id, _args(e.args, env), {k.arg: evaluate(k.value, env) for k in e.keywords if k.arg}, env)
+            if isinstance(e.func, ast.Name) and e.func.id in ("str", "repr") and len(e.args) == 1 and not e.keywords:
+                v_ = evaluate(e.args[0], env)
+                if isinstance(v_, (Inst, list)): return text_of(v_, env)
+            if isinstance(e.func, ast.Attribute):
+                # super().method(...)
+                if isinstance(e.func.value, ast.Call) and isinstance(e.func.value.func, ast.Name) and e.func.value.func.id == "super" and env.get("__class__") in cds:
+                    self_name = next((k_ for k_, v_ in env.items() if isinstance(v_, Inst) and k_ in ("self",)), None)
+                    inst_ = env.get("self")
+                    c_, f_ = find_method(cds, inst_[".__cls__"], e.func.attr, after=env["__class__"]) if isinstance(inst_, Inst) else (None, None)
+                    if f_ is not None: return call_method_of(inst_, c_, f_, _args(e.args, env), {k.arg: evaluate(k.value, env) for k in e.keywords if k.arg}, env)
+                    if e.func.attr == "__init__": return None                     # object.__init__ / a base class outside the module
+                    raise Unsupported("super().%s outside the interpreted classes" % e.func.attr)
+                try: recv_ = evaluate(e.func.value, env)
+                except Unsupported: recv_ = None
+                if isinstance(recv_, Inst) and ("." + e.func.attr) not in recv_:
+                    c_, f_ = find_method(cds, recv_[".__cls__"], e.func.attr)
+                    if f_ is not None: return call_method_of(recv_, c_, f_, _args(e.args, env), {k.arg: evaluate(k.value, env) for k in e.keywords if k.arg}, env)
         # a helper of the analysed module (env["__functions__"]: name -> FunctionDef): interpreted with its parameters bound
         fns = env.get("__functions__") or {}
         hn = e.func.id if isinstance(e.func, ast.Name) else (e.func.attr if isinstance(e.func, ast.Attribute) and isinstance(e.func.value, ast.Name) and (e.func.value.id in ("self", "cls") or (e.func.value.id[:1].isupper() and e.func.value.id not in env)) else None)
@@ -290,6 +325,73 @@ def _trusted_call(f, args, kw):
     except (Raised, Unsupported): raise
     except Exception as ex:
         r_ = Raised(type(ex).__name__, str(ex)); r_.bases = [c.__name__ for c in type(ex).__mro__]; raise r_
+class SList(list):
+    """a list sample that also has attributes (e.g. Arpeggio's SemanticActionResults: the children plus .results by rule name)"""
+    def __init__(s, items=(), **attrs): list.__init__(s, items); s.sample_attrs = dict(attrs)
+class Inst(dict):
+    """instance of a class of the analysed module, built by interpreting its __init__ (env["__classdefs__"]: name -> ClassDef):
+    '.attr' keys are its fields, '.__cls__' its class name; compared and hashed by identity"""
+    __hash__ = object.__hash__
+    def __eq__(s, o): return s is o
+    def __ne__(s, o): return s is not o
+def _mro(cds, name):
+    out_ = []; todo = [name]
+    while todo:
+        n_ = todo.pop(0)
+        if n_ in out_ or n_ not in cds: continue
+        out_.append(n_); todo += [b.id for b in cds[n_].bases if isinstance(b, ast.Name)]
+    return out_
+def find_method(cds, cls_name, meth, after=None):
+    """(defining class name, FunctionDef) of the method as Python's attribute lookup finds it (single inheritance chains)"""
+    mro = _mro(cds, cls_name)
+    if after is not None and after in mro: mro = mro[mro.index(after) + 1:]
+    for n_ in mro:
+        for st_ in cds[n_].body:
+            if isinstance(st_, ast.FunctionDef) and st_.name == meth: return n_, st_
+    return None, None
+def call_method_of(inst_, cls_name, fn_, args, kw, env):
+    if env.get("__depth__", 0) > 40: raise Unsupported("recursion depth")
+    params = [a.arg for a in fn_.args.args]
+    static_ = any(isinstance(d_, ast.Name) and d_.id == "staticmethod" for d_ in fn_.decorator_list)
+    classm_ = any(isinstance(d_, ast.Name) and d_.id == "classmethod" for d_ in fn_.decorator_list)
+    if static_: params = ["__no_self__"] + params
+    if fn_.args.vararg or len(args) + 1 > len(params): raise Unsupported("call of %s.%s with too many / star arguments" % (cls_name, fn_.name))
+    env2 = {k_: v_ for k_, v_ in env.items() if isinstance(k_, str) and k_.startswith("__")}
+    for k_, v_ in env.items():
+        if isinstance(v_, (PyFn, ClassRef, Trusted)) or k_ in (env.get("__keep__") or ()): env2.setdefault(k_, v_)
+    env2["__depth__"] = env.get("__depth__", 0) + 1; env2["__class__"] = cls_name; env2["__global_names__"] = set()
+    defaults = dict(zip(params[len(params) - len(fn_.args.defaults):], fn_.args.defaults))
+    for name_, dflt in defaults.items(): env2[name_] = evaluate(dflt, env2)
+    env2[params[0]] = ClassRef(cls_name) if classm_ else inst_
+    for p_, a_ in zip(params[1:], args): env2[p_] = a_
+    for k_, v_ in kw.items():
+        if k_ not in params:
+            if fn_.args.kwarg: continue
+            raise Unsupported("unknown keyword %s for %s.%s" % (k_, cls_name, fn_.name))
+        env2[k_] = v_
+    if fn_.args.kwarg: env2[fn_.args.kwarg.arg] = {k_: v_ for k_, v_ in kw.items() if k_ not in params}
+    missing = [x for x in params if x not in env2]
+    if missing: raise Unsupported("%s.%s called without %s" % (cls_name, fn_.name, missing))
+    if any(isinstance(n_, (ast.Yield, ast.YieldFrom)) for n_ in ast.walk(fn_)):
+        env2["__yield__"] = []; run_block(fn_.body, env2); return env2["__yield__"]
+    return run_block(fn_.body, env2)
+def instantiate(cls_name, args, kw, env):
+    cds = env.get("__classdefs__") or {}
+    o = Inst({".__cls__": cls_name})
+    _c, init_ = find_method(cds, cls_name, "__init__")
+    if init_ is not None: call_method_of(o, _c, init_, args, kw, env)
+    elif args or kw: raise Raised("TypeError")
+    return o
+def text_of(v, env):
+    """str(v) for a value of the evaluated program (an instance prints through its __str__ / __repr__)"""
+    if isinstance(v, Inst):
+        cds = env.get("__classdefs__") or {}
+        for m_ in ("__str__", "__repr__"):
+            c_, f_ = find_method(cds, v[".__cls__"], m_)
+            if f_ is not None: return call_method_of(v, c_, f_, [], {}, env)
+        return "<%s object>" % v[".__cls__"]
+    if isinstance(v, list): return "[" + ", ".join(text_of(x, env) if isinstance(x, Inst) else repr(x) for x in v) + "]"
+    return str(v)
 class ClassRef:
     """a class of the analysed program used as a value (stored in a tuple, passed on): isinstance against it is answered by env["__classes__"][name]"""
     def __init__(s, name): s.name = name
